@@ -716,7 +716,7 @@ func randomWalk(r *rng.R, maxSteps int) fw.Case {
 	return fw.Case{Input: build(0, tasks, steps), Tags: tags}
 }
 
-// repairedCases: inputs in the five corners that were repaired in /repo (notes/C02.fix-{1,2,3,4}.patch); they are always
+// repairedCases: inputs in the corners that were repaired in /repo (notes/C02.fix-{1,2,3,4,5,6}.patch); they are always
 // run, so that a return of one of the defects is a concrete failing input. (The single-target and failed-request corners
 // are also covered by exhaustiveFast: n=1 non-critical, and every critical failure.)
 func repairedCases() []fw.Case {
@@ -755,6 +755,17 @@ func repairedCases() []fw.Case {
 			okStep("CONFIGURE", 2), okStep("START_ACTIVITY", 2)),
 		mkO("deploy_verdict_lost", []genTask{{true, "direct", "h1", "ok"}, {true, "fairmq", "h2", "ok"}}, [][]string{{"h2"}},
 			okStep("CONFIGURE", 2), okStep("START_ACTIVITY", 2), okStep("STOP_ACTIVITY", 2)),
+		// a workflow without a role (e.g. every role disabled): nothing to deploy, nothing to command — NewEnvironment and the
+		// whole cycle succeed at once (notes/C02.fix-6.patch); the first is the witness of the former finding
+		mk("deploy_empty_workflow", 0, nil),
+		mk("deploy_empty_workflow", 0, nil, []string{"CONFIGURE"}, []string{"START_ACTIVITY"}, []string{"STOP_ACTIVITY"}, []string{"RESET"}, []string{"CONFIGURE"}),
+		// "the root is ACTIVE" cannot be missed by the DEPLOY loop (notes/C02.fix-5.patch). Many roles becoming ACTIVE at
+		// about the same time: call roles are set ACTIVE by a goroutine each, tasks by the scheduler's event loop — six call
+		// roles next to two tasks, eight call roles alone, and the witness of deploy_misses_active (four tasks)
+		mk("deploy_notification_lost", 6, []genTask{{true, "direct", "h1", "ok"}, {false, "basic", "h2", "ok"}}, okStep("CONFIGURE", 2), okStep("START_ACTIVITY", 2)),
+		mk("deploy_notification_lost", 8, nil, []string{"CONFIGURE"}, []string{"START_ACTIVITY"}),
+		mk("deploy_notification_lost", 0, []genTask{{true, "direct", "h2", "ok"}, {false, "direct", "h2", "ok"}, {true, "fairmq", "h2", "ok"}, {true, "direct", "h1", "ok"}},
+			okStep("CONFIGURE", 4), okStep("RESET", 4)),
 	}
 }
 
@@ -907,7 +918,7 @@ func init() {
 			"(b) random legal walks of up to 6 (thorough: 9) requests over 1..4 tasks on 1..2 hosts, modes direct/basic/fairmq, with idle deaths of non-critical tasks; " +
 			"(c) DEPLOY cases (task dies at launch / stays staging / has no host, empty workflow, call roles only); " +
 			"(d) a handful of cases with a silent / dying / unreachable task (each waits for the core's 90 s or 120 s response timeout); " +
-			"(e) 10 fixed cases in the five repaired corners (commands with no target incl. CONFIGURE and a call-roles-only workflow, a lone non-critical task failing at every position, failed requests, offers rounds that are abandoned at once — whose verdict used to get lost on its way to acquireTasks); " +
+			"(e) 15 fixed cases in the repaired corners (commands with no target incl. CONFIGURE and a call-roles-only workflow, a lone non-critical task failing at every position, failed requests, offers rounds that are abandoned at once — whose verdict used to get lost on its way to acquireTasks —, a workflow without any role through the whole cycle, many roles becoming ACTIVE at once — whose last notification the DEPLOY loop used to miss); whenever NewEnvironment fails although every task was running and acknowledged, the core's own time-out error says whether some role was not ACTIVE (the open finding deploy_misses_active) or none (`active-unseen`: the repaired notification loss, which the model never answers); " +
 			"(f) executor / agent loss while a command is outstanding (Mesos FAILURE event injected after the victim's reply has left / before it leaves, with / without the terminal status updates, the other targets answering only after the core has handled the loss): " +
 			"a grid of 2 tasks on 2 hosts x every critical mix x the victim's reply in {ok, error staying, error to ERROR} x START/STOP/RESET/CONFIGURE (48 cells; thorough: x executor/agent x with/without update = 192), 9 fixed shapes (neighbours on the lost executor, several tasks lost, a reply that never leaves, a silent victim that keeps the command outstanding by itself), 30 (thorough: 320) random ones over 2..4 tasks. " +
 			"(g) offers that come late (the simulated master leaves the offer of a host out of scripted offers rounds after DEPLOY revived offers; one round per deployment attempt of Manager.acquireTasks; a third agent without tasks is always offered): a grid of 2 tasks on 2 hosts x every critical mix x each host late by 0..3 rounds (3 = the attempt limit) = 64 cells, 12 fixed shapes (machines missing in turn, a later round incomplete again, several tasks on the late host, late and then dying / staying in staging, machines that no agent has, a request failing after a late deployment), 36 (thorough: 400) random ones over 1..4 tasks with ANY pattern of missing offers over 0..4 rounds; the observation of NewEnvironment carries the tasks launched per attempt (REVIVE / ACCEPT calls seen by the master) and, whenever NewEnvironment failed with every task launched (with or without scripted offers), whether acquireTasks is still parked at the receive of a round's verdict (goroutine dump; the model of the repaired code has no such run, so it would be a disagreement). " +
